@@ -101,6 +101,26 @@ def _run(hist, final, w):
     if not ok:
         WHY["why"] = "late parent: " + why
         return False
+    # ... also when the new parent is made by the built-in Wrapper (which clones the child's ports)
+    from hdl21.generators import Wrapper
+    wrap = Wrapper(child)
+    wrap_d = Mod(wrap.name, ports=list(child_d.ports), buns=[b for b in child_d.buns if b[2]], insts=[
+        Inst("inner", child_d, {**{p: Sig(p) for p, _ in child_d.ports}, **{b[0]: Bun(b[0]) for b in child_d.buns if b[2]}})])
+    par2_d = Mod("Late2", ports=[("s", w), ("t", 1)], buns=[("nb", B, False)], insts=[
+        Inst("c", wrap_d, {"a": Sig("s"), "g": Sig("t"), "mb": Bun("nb")})])
+    par2 = h.Module(name="Late2")
+    par2.s, par2.t = h.Port(width=w), h.Port()
+    par2.nb = h.BundleInstance(of=_bundle_of(mods))
+    try:
+        par2.c = wrap(a=par2.s, g=par2.t, mb=par2.nb)
+        pkg2 = h.to_proto(par2)
+    except Exception as e:
+        WHY["why"] = "late parent through Wrapper: " + str(e).splitlines()[-1][:200]
+        return False
+    ok, why = dc.compare(par2_d, pkg2, riders=False, spice=False)
+    if not ok:
+        WHY["why"] = "late parent through Wrapper: " + why
+        return False
     # elaborated modules refuse additions
     for m in mods:
         if m._elaborated is not None:
